@@ -8,6 +8,7 @@ import (
 	"github.com/cloudflare/pat-go/tokens/type3"
 
 	"verifharness/internal/core"
+	"verifharness/internal/ref"
 )
 
 func init() {
@@ -17,7 +18,7 @@ func init() {
 		Rule: "origin names of every length 0..200 (quick) / 0..4128 (thorough) not ending in 0x00 (seeded content, incl. interior zero bytes and 0x01 endings at block borders): each requested against an issuer that registered exactly that name (must be served) and against issuers that registered a near miss " +
 			"{last byte changed, name||\"a\", name minus last byte, name||0x00||\"a\", the empty name} (must be refused); the wire length of each request must equal len(request(\"\")) + 32*(max(1,ceil(len/32))-1), with the base taken from the first observation. " +
 			"distinct_nontrivial = distinct (name length, registered-set class) pairs",
-		Floors:      []string{"served_registered", "refused_near_miss", "length_in_bucket", "block_border_lengths", "empty_name"},
+		Floors:      []string{"served_registered_hostile_text_names", "served_registered", "refused_near_miss", "length_in_bucket", "block_border_lengths", "empty_name"},
 		Assumptions: []string{"names ending in a zero byte are outside the statement"},
 		Run:         runC20,
 	})
@@ -200,6 +201,53 @@ func runC20(c *core.Ctx) {
 				continue
 			}
 			c.Class("served_registered")
+		}
+	}
+	// names that are printf directives, invalid UTF-8, control characters, near-duplicates of each other: all registered
+	// on ONE issuer, each served under its own name and recovered exactly (the second value of Evaluate is the request
+	// key blinded with THAT origin's index key - checked through reqLen's finalization)
+	if c.Next() {
+		r := c.CaseRng()
+		names := HostileNames()
+		for lo := 0; lo < len(names); lo += 40 {
+			hi := min(lo+40, len(names))
+			issuer := type3.NewRateLimitedIssuer(key)
+			for _, o := range names[lo:hi] {
+				issuer.AddOrigin(o)
+			}
+			for _, sname := range names[lo:hi] {
+				c.Eval(1)
+				d := map[string]any{"name": core.Hex([]byte(sname))}
+				pan, pv, where := core.Guard(func() {
+					cl := type3.NewRateLimitedClientFromSecret(ScalarBytes(r, N, 48))
+					st, cerr := cl.CreateTokenRequest(r.Bytes(16), r.Bytes(32), ScalarBytes(r, N, 48), issuer.TokenKeyID(), issuer.TokenKey(), sname, issuer.NameKey())
+					if cerr != nil {
+						c.Violation("registered-refused:hostile-text", fmt.Sprintf("a request for the registered origin %q could not be created: %v", sname[:min(len(sname), 40)], cerr), d)
+						return
+					}
+					_, brk, eerr := issuer.Evaluate(st.Request().Marshal())
+					if eerr != nil {
+						c.Violation("registered-refused:hostile-text", fmt.Sprintf("a request for a registered origin whose name is hostile text (%q) was not served: %v", sname[:min(len(sname), 40)], eerr), d)
+						return
+					}
+					// served under THIS name: the second value is the request key blinded with this origin's index key
+					ik := issuer.OriginIndexKey(sname)
+					qx, qy, ok := ref.ECDecompress(curve, st.Request().RequestKey)
+					if ik == nil || !ok {
+						return
+					}
+					bx, by := ref.ECMul(curve, qx, qy, ref.ECDSABlindScalar(curve, ik.D, t3Ctx("IssuerBlind")))
+					if !bytes.Equal(brk, ref.ECCompress(curve, bx, by)) {
+						c.Violation("served-under-another-name:hostile-text", fmt.Sprintf("the request for %q was answered with another origin's index key", sname[:min(len(sname), 40)]), d)
+						return
+					}
+					c.Class("served_registered_hostile_text_names")
+				})
+				if pan {
+					d["panic"] = pv
+					c.Violation("panic:"+where, "panic: "+pv, d)
+				}
+			}
 		}
 	}
 	c.Exhaustive(fmt.Sprintf("origin name lengths 0..%d", L))
